@@ -94,6 +94,7 @@ def new_nx(ex, directed):
 
 
 def check_owned(ex, obj, what):
+    ex.mut_clock = getattr(ex, "mut_clock", 0) + 1      # every container write passes here (see Exec.run_generator)
     if not getattr(obj, "owned", True):
         ex.emit("frame", ex.L.F(), note=f"{what} mutates an object reachable from the caller")
 
@@ -312,6 +313,10 @@ def get_item(ex, base, key):
             raise OutOfSubset("unreachable")
         ex.require(h[0](base.node_t), "KeyError", "node-attribute")
         return VBool(h[1](base.node_t))
+    if isinstance(base, VSet) and getattr(base, "nx_view", None) is not None and base.nx_view[1] == "nodes" and isinstance(key, VNode):
+        g = base.nx_view[0]
+        ex.require(g.N(key.t), "KeyError", "node-view")
+        return VAttrs(g, key.t)
     if isinstance(base, VDict) and isinstance(key, VNode) and base.val is not None:
         ex.require(base.dom(key.t), "KeyError", "getitem")
         return base.val(key.t)
@@ -895,6 +900,19 @@ def call_builtin(ex, name, args, kwargs):
         if not (isinstance(n, VInt) and n.const() == 2):
             raise OutOfSubset("combinations with r != 2")
         return combinations2(ex, args[0])
+    if name in ("itertools.product", "product") and len(args) == 1 and set(kwargs) == {"repeat"} \
+            and isinstance(kwargs["repeat"], VInt) and kwargs["repeat"].const() == 2:
+        # product(S, repeat=2): every ordered pair of elements of S (order of the pairs abstracted)
+        alts = ex.comp_alts(args[0])
+        out = []
+        for cs1, g1, e1 in alts:
+            for cs2, g2, e2 in alts:
+                fresh = [z3.Const(L.fresh_name("p2"), c.sort()) for c in cs2]
+                sub = list(zip(cs2, fresh))
+                out.append((list(cs1) + fresh, L.And(g1, z3.substitute(g2, *sub) if sub else g2), VTuple([e1, _subst_value(e2, sub)])))
+        c = VComp(None, None, None, kind="gen")
+        c.alts = out
+        return c
     if name in ("itertools.product", "product"):
         if len(args) != 2 or kwargs:
             raise OutOfSubset("product arity")
@@ -968,6 +986,21 @@ def call_builtin(ex, name, args, kwargs):
             g.nattrs[tag.s] = (lambda x: L.Or(oh(x), N0(x)), lambda x: z3.If(N0(x), v, ov(x)))
         return NONE
     raise OutOfSubset(f"library function {name}")
+
+
+def _subst_value(v, sub):
+    """Rename iteration constants inside an element value (nodes, tuples, sets)."""
+    if not sub:
+        return v
+    if isinstance(v, VNode):
+        return VNode(z3.substitute(v.t, *sub))
+    if isinstance(v, VTuple):
+        return VTuple([_subst_value(i, sub) for i in v.items])
+    if isinstance(v, VSet):
+        p0 = v.pred
+        r = VSet(lambda *xs: z3.substitute(p0(*xs), *sub), arity=v.arity, kind=v.kind, owned=False)
+        return r
+    raise OutOfSubset(f"renaming inside a {type(v).__name__}")
 
 
 def combinations2(ex, src):
@@ -1100,6 +1133,24 @@ def call_method(ex, obj, name, args, kwargs):
             n = args[0]
             ex.require(obj.N(n.t), "NetworkXError", name)
             return VSet(lambda x: obj.E(n.t, x), kind="list", owned=False)
+        if name in ("out_edges", "in_edges", "out_degree", "in_degree") and len(args) == 1 and not kwargs \
+                and isinstance(args[0], VNode):
+            if not obj.directed:
+                raise OutOfSubset(f"{name} of an undirected graph")
+            n = args[0]
+            E = obj.curE
+            if name == "out_edges":
+                # networkx returns an empty view for a node that is not in the graph only via nbunch filtering; a single missing
+                # node raises NetworkXError when the view is iterated / measured
+                ex.require(obj.N(n.t), "NetworkXError", name)
+                return VSet(lambda a, b: L.And(a == n.t, E(a, b)), arity=2, kind="list", owned=False)
+            if name == "in_edges":
+                ex.require(obj.N(n.t), "NetworkXError", name)
+                return VSet(lambda a, b: L.And(b == n.t, E(a, b)), arity=2, kind="list", owned=False)
+            ex.require(obj.N(n.t), "KeyError", name)
+            if name == "out_degree":
+                return VLen(VSet(lambda x: E(n.t, x), kind="list", owned=False))
+            return VLen(VSet(lambda x: E(x, n.t), kind="list", owned=False))
         if name == "has_edge":
             u, v = args
             return VBool(obj.E(u.t, v.t))
@@ -1234,6 +1285,13 @@ def call_method(ex, obj, name, args, kwargs):
                                 "is an injective function into transport nodes (string concatenation with a fixed prefix is injective)")
         _transport_axioms(L)
         return VBool(L.is_transport(obj.what[1]))
+    if isinstance(obj, VDict) and name in ("items", "keys", "values") and not args and obj.val is not None:
+        obj._check_read()
+        k = L.node("key")
+        c = VComp(None, None, None, kind="gen")
+        elt = VNode(k) if name == "keys" else (obj.val(k) if name == "values" else VTuple([VNode(k), obj.val(k)]))
+        c.alts = [([k], obj.dom(k), elt)]
+        return c
     if isinstance(obj, VFam):
         if name == "pop" and not args:
             # an arbitrary member of a set of frozensets (the set itself is a temporary here: removal is not tracked)
